@@ -12,11 +12,13 @@ use program_structure::ir::*;
 
 pub struct UnconstrainedLessThanWarning {
     value: Expression,
+    /// The location of the input to `LessThan`.
+    less_than: Meta,
     bit_sizes: Vec<(Meta, Expression)>,
 }
 impl UnconstrainedLessThanWarning {
     fn primary_meta(&self) -> &Meta {
-        self.value.meta()
+        &self.less_than
     }
 
     pub fn into_report(self) -> Report {
@@ -264,6 +266,9 @@ fn update_inputs(
 fn build_report(value: &Expression, data: &ConstraintData) -> Report {
     UnconstrainedLessThanWarning {
         value: value.clone(),
+        // The expression may also occur as an input to `Num2Bits` (expressions are compared
+        // without their locations), so the location is taken from the input to `LessThan`.
+        less_than: data.less_than.first().unwrap_or(value.meta()).clone(),
         bit_sizes: data.num_2_bits.iter().cloned().zip(data.bit_sizes.iter().cloned()).collect(),
     }
     .into_report()
